@@ -251,4 +251,78 @@ class C02(RenderProp):
         return case.get("depth", 0) >= 3 and not case.get("_declined")
 
 
-PROPS = {p.id: p for p in [C01(), C02(), C17(), C18()]}
+class C06(RenderProp):
+    id = "C06"
+    n_quick = 2500
+    n_thorough = 40000
+    required_theorems = ["C06_extract", "C06_void_table", "C06_quote_output", "C06_quote_lex", "C06_quote_no_trailing_brace"]
+    assumptions = ["quoteL / lexQ are hand-written models of quoteDelims (pug_parser.go) and of lexText/lexLeftDelim/lexRightDelim (parse/lex.go) restricted to the quoting "
+                   "action; validated end to end by the correspondence"]
+    rule = ("random tag trees (block-level/inline, void/non-void, depth <= 4 quick / 7 thorough, optional doctype) with literal texts from a "
+            "delimiter-heavy alphabet ({ } {{ }} - quotes backslash white space multi-byte) before/after/inside buffered code, string literals, "
+            "conditionals, loops, case branches and unbuffered code. Oracle: reference serialisation in which only white space at a text edge "
+            "bordering a control construct is optional. Non-trivial: depth >= 3; distinct by whole document + data.")
+
+    def nontrivial(self, case, impl):
+        return case.get("depth", 0) >= 3 and not case.get("_declined")
+
+
+WS = " \t\r\n"
+
+
+def strip_ws(s):
+    return "".join(ch for ch in s if ch not in WS)
+
+
+def ws_deletion_only(prod, debug):
+    """is `debug` obtained from `prod` by deleting white-space characters only?"""
+    i = 0
+    for ch in debug:
+        while i < len(prod) and prod[i] != ch:
+            if prod[i] not in WS:
+                return False
+            i += 1
+        if i >= len(prod):
+            return False
+        i += 1
+    return all(c in WS for c in prod[i:])
+
+
+class C13(Prop):
+    id = "C13"
+    n_quick = 2000
+    n_thorough = 30000
+    required_theorems = ["C13_sep_shape", "C13_sep_left", "C13_sep_right", "C13_sep_effect", "C13_trim_left_ws_only", "C13_trim_right_ws_only"]
+    rule = ("every generated C02 / C06 / C03 program rendered by the real engine with Engine.Debug false and true. Oracle on the two real outputs: "
+            "equal after removing all white space, and the debug output is obtained from the production output by deleting white-space characters only. "
+            "Non-trivial: document contains a block-level tag; distinct by whole document + data.")
+    assumptions = ["debug-mode compilation is part of the hand-written transpiler model; its agreement with transform_tag.go is validated by the correspondence"]
+
+    def compare(self, case, impl, model, spec):
+        ip, idb = out_of((impl or {}).get("prod")), out_of((impl or {}).get("debug"))
+        mp, mdb = out_of((model or {}).get("prod")), out_of((model or {}).get("debug"))
+        declined = mp[0] in ("model-domain", "no-model") or mdb[0] in ("model-domain", "no-model")
+        case["_declined"] = declined
+        def same(i, m):
+            return i == m if (i[0] == "ok" or m[0] == "ok") else i[0] == m[0]
+        corr = True if declined else (same(ip, mp) and same(idb, mdb))
+        prop = None
+        if ip[0] == "ok":
+            if idb[0] != "ok":
+                # debug mode has extra compile-time checks (mixin called but not found): only a class difference on success counts
+                prop = False
+            else:
+                prop = strip_ws(ip[1]) == strip_ws(idb[1]) and ws_deletion_only(ip[1], idb[1])
+        detail = "prod impl=%r model=%r | debug impl=%r model=%r" % (ip, mp, idb, mdb)
+        return corr, prop, detail
+
+    def nontrivial(self, case, impl):
+        return '"inline": false' in json.dumps(case.get("doc")) and not case.get("_declined")
+
+    def bucket(self, case, impl):
+        if case.get("_declined"):
+            return "model-declined"
+        return "%s/%s" % (case.get("from"), out_of((impl or {}).get("prod"))[0])
+
+
+PROPS = {p.id: p for p in [C01(), C02(), C06(), C13(), C17(), C18()]}
